@@ -162,7 +162,7 @@ def run(ctx):
     # longer loaded keeps rejecting traffic
     from . import rules_C10
     mod = "core::system::rule_manager"
-    bodies = {p: b for p, b in f.bodies.items() if p.startswith(mod + "::") and b.kind == "Fn"}
+    bodies = rules_C10.manager_bodies(f, "system")
     rules_C10.raw_snapshot(ctx, f, "system", bodies, cfg)
     rules_C10.append_snapshot(ctx, f, "system", bodies, cfg)
 
